@@ -94,6 +94,7 @@ impl Tracker {
     }
     pub fn set_enabled(&self, on: bool) { self.enabled.store(on, SeqCst) }
     fn problem(&self, s: String) {
+        if std::env::var_os("RMV_BT").is_some() { eprintln!("tracker: {s}\n{}", std::backtrace::Backtrace::force_capture()) }
         let mut p = self.problems.lock().unwrap();
         if p.len() < 32 { p.push(s) }
     }
